@@ -129,6 +129,24 @@ def gen_cases(rng, tier):
         eq = rng.random() < 0.3
         cases.append({"kind": "optthr", "mu0": e["mu0"], "mu1": e["mu1"], "S0": e["s0"] ** 2, "S1": e["s0"] ** 2 if eq else e["s1"] ** 2,
                       "modulation": rng.choice(["ook", "ppm", "OOK"]), "M": rng.choice(MS)})
+    # optimum_threshold at RECEIVER scale (variances in V^2: 1e-12 ... 1e-8) — pure scalings of unit-scale points by alpha
+    # (threshold must scale by alpha) and levels / variances taken from average_voltages / noise_variances
+    for _ in range(8 * k):
+        e = _eye(rng)
+        ratio = rng.uniform(1.2, 10.0)
+        up = rng.random() < 0.7
+        cases.append({"kind": "optthr-scale", "mu0": e["mu0"], "mu1": e["mu1"], "S0": e["s0"] ** 2 * (1.0 if up else ratio),
+                      "S1": e["s0"] ** 2 * (ratio if up else 1.0), "alphas": [1e-4, 1e-5, 1e-6],
+                      "modulation": rng.choice(["ook", "ppm"]), "M": rng.choice(MS)})
+    for _ in range(10 * k):
+        amp = rng.random() < 0.4
+        BW_el = rng.choice([1e9, 5e9, 10e9])
+        cases.append({"kind": "optthr-rx", "amplify": amp, "give": amp, "G": rng.uniform(0.0, 6.0) if amp else None,
+                      "NF": rng.uniform(3, 6) if amp else None, "BW_opt": BW_el * rng.uniform(2, 10) if amp else None,
+                      "wavelength": 1550e-9, "r": rng.uniform(0.5, 1.0), "BW_el": BW_el, "R_L": rng.choice([10, 10, 50]),
+                      "T": rng.choice([300, rng.uniform(5, 100), rng.uniform(20, 400)]), "NF_el": rng.choice([0, rng.uniform(0, 3)]),
+                      "ER": rng.choice([None, 10.0, rng.uniform(6, 30)]), "P_avg": rng.uniform(-12, 0),
+                      "modulation": rng.choice(["ook", "ppm"]), "M": rng.choice([2, 4, 16, 64])})
     for _ in range(3 * k):
         es = [_eye(rng) for _ in range(3)]
         cases.append({"kind": "optthr-vec", "mu0": 0.0, "mu1": [e["mu1"] - e["mu0"] for e in es], "S0": [e["s0"] ** 2 for e in es],
@@ -294,6 +312,21 @@ def run_impl(case):
                                       for p in case["P_avg"]]
             elif kind == "optthr":
                 res["thr"] = _try(lambda: _f(utils.optimum_threshold(case["mu0"], case["mu1"], case["S0"], case["S1"], case["modulation"], case["M"])))
+            elif kind in ("optthr-scale", "optthr-rx"):
+                if kind == "optthr-scale":
+                    pts = [(1.0, case["mu0"], case["mu1"], case["S0"], case["S1"])] + \
+                          [(a, case["mu0"] * a, case["mu1"] * a, case["S0"] * a * a, case["S1"] * a * a) for a in case["alphas"]]
+                else:
+                    Mv = 2 if case["modulation"] == "ook" else case["M"]
+                    res["avg"] = _try(lambda: [float(v) for v in utils.average_voltages(case["P_avg"], case["modulation"], Mv,
+                                                                                        **_rx_kwargs(case, with_el=False))[0]])
+                    res["nvar"] = _try(lambda: [float(v) for v in utils.noise_variances(case["P_avg"], case["modulation"], Mv, **_rx_kwargs(case))])
+                    pts = []
+                    if "ok" in res["avg"] and "ok" in res["nvar"]:
+                        pts = [(1.0, res["avg"]["ok"][0], res["avg"]["ok"][1], res["nvar"]["ok"][0], res["nvar"]["ok"][1])]
+                res["pts"] = [{"alpha": a, "mu0": m0, "mu1": m1, "S0": S0, "S1": S1,
+                               "thr": _try(lambda m0=m0, m1=m1, S0=S0, S1=S1: _f(utils.optimum_threshold(m0, m1, S0, S1, case["modulation"], case["M"])))}
+                              for a, m0, m1, S0, S1 in pts]
             elif kind == "optthr-vec":
                 res["thr"] = _try(lambda: [float(v) for v in utils.optimum_threshold(case["mu0"], np.array(case["mu1"]), np.array(case["S0"]),
                                                                                       np.array(case["S1"]), case["modulation"], case["M"])])
@@ -452,6 +485,9 @@ def model_requests(case, res):
         return [f"ber.opt_thr " + _F(case["mu0"], case["mu1"], case["S0"], case["S1"]) + f" {M}"]
     if k == "optthr-vec":
         return [f"ber.opt_thr " + _F(case["mu0"], case["mu1"][i], case["S0"][i], case["S1"][i]) + f" {case['M']}" for i in range(3)]
+    if k in ("optthr-scale", "optthr-rx"):
+        M = 2 if case["modulation"].lower() == "ook" else case["M"]
+        return [f"ber.opt_thr " + _F(p["mu0"], p["mu1"], p["S0"], p["S1"]) + f" {M}" for p in res.get("pts", [])]
     return []
 
 
@@ -582,6 +618,10 @@ def compare(case, res, reqs, replies):
         return out
     if k == "optthr":
         return _cmp_val("utils.optimum_threshold", replies[0], res["thr"], 1e-9, 1e-12 * abs(case["mu1"]))
+    if k in ("optthr-scale", "optthr-rx"):
+        for p, rep in zip(res["pts"], replies):
+            out += _cmp_val(f"utils.optimum_threshold(scale {p['alpha']:g})", rep, p["thr"], 1e-9, 1e-12 * abs(p["mu1"]))
+        return out
     if k == "optthr-vec":
         if "ok" not in res["thr"]:
             return [f"utils.optimum_threshold(arrays): {res['thr']}"]
@@ -692,7 +732,7 @@ def oracle(case, res):
             v.append(("C13:rx-validation", f"ValueError documented for G={case['G']} NF={case['NF']} BW_opt={case['BW_opt']} M={case['M']} "
                       f"decision={case['decision']} threshold={case['threshold']}; got {d}"))
         return v
-    if k in ("optthr", "optthr-vec"):
+    if k in ("optthr", "optthr-vec", "optthr-scale", "optthr-rx"):
         return _oracle_optthr(case, res)
     if k == "device-pd":
         return _oracle_device_pd(case, res)
@@ -900,6 +940,23 @@ def _oracle_optthr(case, res):
         if not _need(v, "utils.optimum_threshold", res["thr"]):
             return v
         items.append((case["mu0"], case["mu1"], case["S0"], case["S1"], res["thr"]["ok"]))
+    elif case["kind"] in ("optthr-scale", "optthr-rx"):
+        if case["kind"] == "optthr-rx" and not res.get("pts"):
+            return [("C13:raises:optthr-rx", f"average_voltages / noise_variances failed: {res.get('avg')} {res.get('nvar')}")]
+        for p in res["pts"]:
+            if not _need(v, "utils.optimum_threshold", p["thr"]):
+                return v
+            items.append((p["mu0"], p["mu1"], p["S0"], p["S1"], p["thr"]["ok"]))
+        # scale covariance: (mu, S) -> (alpha mu, alpha^2 S) must give alpha times the threshold
+        base = res["pts"][0]
+        for p in res["pts"][1:]:
+            a, t0, t1 = p["alpha"], base["thr"]["ok"], p["thr"]["ok"]
+            if math.isnan(t0) and math.isnan(t1):
+                continue
+            cond = max(1.0, (base["S0"] + base["S1"]) / abs(base["S1"] - base["S0"]))
+            if not abs(t1 - a * t0) <= 1e-9 * cond * a * max(abs(t0), abs(base["mu1"]), abs(base["mu0"])):
+                v.append(("C13:optthr-scale", f"optimum_threshold is not scale covariant: levels ({base['mu0']},{base['mu1']}), variances "
+                          f"({base['S0']},{base['S1']}) give {t0!r}; scaled by alpha={a:g} (variances by alpha^2) give {t1!r}, expected {a * t0!r}"))
     else:
         if not _need(v, "utils.optimum_threshold(arrays)", res["thr"]) or any("ok" not in e for e in res["each"]):
             return v or [("C13:raises:optimum_threshold", f"{res['each']}")]
@@ -971,6 +1028,10 @@ def features(case, res):
               "tb=" + ("ok" if "ok" in res.get("tb", {}) else str(res.get("tb", {}).get("exc")))]
     if k == "optthr":
         f.append("S0==S1" if case["S0"] == case["S1"] else "S0!=S1")
+    if k in ("optthr-scale", "optthr-rx"):
+        for p in res.get("pts", []):
+            f.append("optthr S~1e%d" % round(math.log10(max(p["S0"], 1e-300))))
+            f.append("optthr S1/S0 " + ("<1.2" if p["S1"] / p["S0"] < 1.2 and p["S1"] >= p["S0"] else "in[1.2,10]" if 1.2 <= p["S1"] / p["S0"] <= 10 else "other"))
     return f
 
 
